@@ -169,14 +169,31 @@ def run(ctx):
     shared = [s for s in specs if not s["meta"]["vars_set"]]
     private = [s for s in specs if s["meta"]["vars_set"]]
     results = flows.run_many(private, workers=6)
-    for s in shared:
-        results += flows.run_many([s], workers=1)
-        ident = s["meta"]["identifier"]
-        shutil.rmtree(os.path.join("/var/www", ident), ignore_errors=True)
-        for f in ("/run/tacd_%s.pid" % ident, "/run/tacd_%s.sock" % ident):
-            if os.path.exists(f):
-                os.unlink(f)
-    subprocess.run(["pkill", "-x", "tacd"], capture_output=True)
+    # the documented default locations exist once per machine: another copy of this check must wait
+    import fcntl
+    lock = open("/var/lock/verif_c20_default_locations.lock", "w")
+    fcntl.flock(lock, fcntl.LOCK_EX)
+    try:
+        for s in shared:
+            results += flows.run_many([s], workers=1)
+            ident = s["meta"]["identifier"]
+            shutil.rmtree(os.path.join("/var/www", ident), ignore_errors=True)
+            for f in ("/run/tacd_%s.pid" % ident, "/run/tacd_%s.sock" % ident):
+                if os.path.exists(f):
+                    os.unlink(f)
+    finally:
+        fcntl.flock(lock, fcntl.LOCK_UN)
+        lock.close()
+    # stop whatever responders this run left behind - and only those: other checks (C16, C17) and other copies of this
+    # one run their own tacd at the same time.  Ours are recognisable by their pid-file argument.
+    mine = [root] + ["/run/tacd_%s.pid" % s["meta"]["identifier"] for s in shared]
+    for l in subprocess.run(["pgrep", "-x", "-a", "tacd"], capture_output=True, text=True).stdout.splitlines():
+        pid, _, cmdline = l.partition(" ")
+        if any(m in cmdline for m in mine):
+            try:
+                os.kill(int(pid), 15)
+            except (OSError, ValueError):
+                pass
     lines, owner = [], []
     for k, x in enumerate(results):
         lines.append({"e": "Reset", "git": bool(x["meta"]["git"])})
